@@ -84,7 +84,10 @@ def _probe_tree():
     for n in ("probe_alias.py", "probe_regex.py", "probe_list.py", "probe_str.py"):
         files["pairs/" + n] = PROBES[n]
     _zoo, cfg, _index = load.zoo_project()
-    return files, load.deep_merge(cfg, {"dry": {"enabled": True}})
+    # the project's own configuration is strict; alt/choice.yaml (for --config / config_file=)
+    # mentions other sections only: nothing of the project's file may leak into such a run
+    files["alt/choice.yaml"] = yaml_dump({"srp": {"max_methods": 9}, "dry": {"enabled": False}})
+    return files, load.deep_merge(cfg, {"dry": {"enabled": True}, "nesting": {"max_nesting_depth": 1}, "magic-numbers": {"allowed_numbers": []}})
 
 
 def _tree(item):
@@ -240,6 +243,19 @@ def run_item(item) -> Acc:
             if whole or lib:
                 acc.nt((item["tree"], cmd, ".", "lib-vs-cli"))
             _diff_fail(acc, {"edge": "library-vs-cli", "target": "dir", "command": cmd}, {"tree": item["tree"], "cmd": cmd, "target": "."}, whole, lib, "Linter.lint(dir) vs CLI on the same directory")
+            if item["tree"] == -1:
+                # an explicitly chosen configuration file: CLI --config vs Linter(config_file=...)
+                chosen, r = cli(["--config", "alt/choice.yaml", "."])
+                chosen = [t for t in chosen if t[1] in files]
+                env.reset_caches()
+                with obs.cwd(root):
+                    lib2 = [t for t in _nm(obs.norm([obs.vdict(v) for v in Linter(config_file=str(root / "alt/choice.yaml"), project_root=root).lint(root) if v.rule_id.startswith(prefix)], root, root), root) if t[1] in files]
+                acc.case(2)
+                acc.edge()
+                acc.valid()
+                if chosen or lib2:
+                    acc.nt((item["tree"], cmd, ".", "chosen-config"))
+                _diff_fail(acc, {"edge": "library-vs-cli", "target": "dir", "command": cmd, "config": "explicitly-chosen-file"}, {"tree": -1, "cmd": cmd, "target": "--config alt/choice.yaml ."}, chosen, lib2, "CLI --config FILE vs Linter(config_file=FILE) on the same directory")
             # the same directory spelled as an absolute path
             whole_abs, r = cli([str(root)])
             whole_abs = [t for t in whole_abs if t[1] in files]
